@@ -1111,9 +1111,13 @@ func (e *Entry) Augment(addErrors bool) (processed, skipped int) {
 	var unapplied []*Entry
 	for _, a := range e.Augments {
 		target := a.Find(a.Name)
-		if target == nil {
-			if addErrors {
+		if target == nil || !target.IsDir() {
+			// A target that is not a directory, e.g. a leaf, cannot be
+			// augmented with children.
+			if addErrors && target == nil {
 				e.errorf("%s: augment %s not found", Source(a.Node), a.Name)
+			} else if addErrors {
+				e.errorf("%s: augment %s: target cannot have children", Source(a.Node), a.Name)
 			}
 			skipped++
 			unapplied = append(unapplied, a)
